@@ -417,7 +417,11 @@ def check_property(prop, tier='quick', only=None, jobs=None, verbose=False, seed
 
     # ------------------------------------------------------------ report
     lines = []
+    seen_k = set()
     for oname, kf in known_hits:
+        if oname in seen_k:
+            continue
+        seen_k.add(oname)
         lines.append('KNOWN-FINDING: property=%s %s [%s]' % (prop, kf.get('what', ''), oname))
     seen_v = set()
     for oname, o, reproduced in violations:
